@@ -27,7 +27,8 @@ CONSTANTS Lens,        \* array lengths for element / whole / via-field cases
           MaxDepth,    \* nesting bound of disable blocks
           MaxSteps,    \* length bound of block behaviours
           Mode,        \* "cases" | "blocks" | "gen" | "trace"
-          RestoreOnException   \* TRUE: intended behaviour; FALSE: model of a context manager without try/finally
+          RestoreOnException,  \* TRUE: intended behaviour; FALSE: model of a context manager without try/finally
+          HandleCaptures       \* FALSE: intended; TRUE: model of array objects that remember the switch they were made under
 
 (***************************************************************************)
 (* Part 1b: the cases.  c = [k, n, sh, i, a, b, s, v]                      *)
@@ -89,8 +90,9 @@ Judge(c, o) ==
 (*   message ("m0" initial, "new" after an accepted write, "junk" after an *)
 (*   unvalidated write of a value outside the domain).                     *)
 (***************************************************************************)
-VARIABLES cs, stack, enabled, msg, last, hist
-vars == <<cs, stack, enabled, msg, last, hist>>
+VARIABLES cs, stack, enabled, msg, last, hist,
+          handles     \* array objects (m.arr) the caller has kept: the set of origins, "in" (made inside a disable block) / "out"
+vars == <<cs, stack, enabled, msg, last, hist, handles>>
 
 Frame(m, sv) == [mode |-> m, saved |-> sv]
 HasDis(st) == \E j \in DOMAIN st : st[j].mode = "dis"
@@ -111,14 +113,14 @@ Enter(m) ==
   /\ stack' = Append(stack, Frame(m, enabled))
   /\ enabled' = IF m = "dis" THEN FALSE ELSE enabled
   /\ hist' = Log([a |-> "Enter", m |-> m, k |-> 0])
-  /\ UNCHANGED <<cs, msg, last>>
+  /\ UNCHANGED <<cs, msg, last, handles>>
 
 ExitNormal ==
   /\ Len(stack) > 0 /\ Len(hist) < MaxSteps
   /\ enabled' = Unwind(stack, enabled, 1)
   /\ stack' = Front(stack, 1)
   /\ hist' = Log([a |-> "ExitNormal", m |-> "-", k |-> 1])
-  /\ UNCHANGED <<cs, msg, last>>
+  /\ UNCHANGED <<cs, msg, last, handles>>
 
 (* an exception raised in the innermost block propagates through k blocks and is caught there *)
 ExitByException(k) ==
@@ -126,7 +128,7 @@ ExitByException(k) ==
   /\ enabled' = IF RestoreOnException THEN Unwind(stack, enabled, k) ELSE enabled
   /\ stack' = Front(stack, k)
   /\ hist' = Log([a |-> "ExitByException", m |-> "-", k |-> k])
-  /\ UNCHANGED <<cs, msg, last>>
+  /\ UNCHANGED <<cs, msg, last, handles>>
 
 (* assignment of a value inside ("good") or outside ("bad") the domain of the field *)
 Assign(cls) ==
@@ -136,17 +138,36 @@ Assign(cls) ==
           /\ last' = [cls |-> cls, refused |-> cls = "bad", pre |-> msg]
      ELSE /\ msg' \in (IF cls = "good" THEN {"new"} ELSE {msg, "junk"})   \* validation off: whatever the raw write does
           /\ last' = [cls |-> cls, refused |-> FALSE, pre |-> msg]
-  /\ UNCHANGED <<cs, stack, enabled, hist>>
+  /\ UNCHANGED <<cs, stack, enabled, hist, handles>>
+
+(* the caller reads an array field and keeps the object *)
+TakeHandle ==
+  /\ Mode = "blocks"
+  /\ handles' = handles \cup {IF enabled THEN "out" ELSE "in"}
+  /\ UNCHANGED <<cs, stack, enabled, msg, last, hist>>
+
+(* an element / slice assignment through a kept array object: what counts is where execution IS, not where the object was made *)
+AssignVia(o, cls) ==
+  /\ Mode = "blocks" /\ o \in handles
+  /\ LET eff == IF HandleCaptures THEN o = "out" ELSE enabled IN
+     IF eff
+     THEN /\ msg' = IF cls = "good" THEN "new" ELSE msg
+          /\ last' = [cls |-> cls, refused |-> cls = "bad", pre |-> msg]
+     ELSE /\ msg' \in (IF cls = "good" THEN {"new"} ELSE {msg, "junk"})
+          /\ last' = [cls |-> cls, refused |-> FALSE, pre |-> msg]
+  /\ UNCHANGED <<cs, stack, enabled, hist, handles>>
 
 BNext ==
   \/ \E m \in {"dis", "ign"} : Enter(m)
   \/ ExitNormal
   \/ \E k \in 1..MaxDepth : ExitByException(k)
   \/ \E cls \in {"good", "bad"} : Assign(cls)
+  \/ TakeHandle
+  \/ \E o \in {"in", "out"} : \E cls \in {"good", "bad"} : AssignVia(o, cls)
 
 NoCase == Case("-", 0, "-", 0, 0, 0, 0, SV("-"))
-BInit == cs = NoCase /\ stack = <<>> /\ enabled = TRUE /\ msg = "m0" /\ last = NoLast /\ hist = <<>>
-CInit == IsCase(cs) /\ stack = <<>> /\ enabled = TRUE /\ msg = "m0" /\ last = NoLast /\ hist = <<>>
+BInit == cs = NoCase /\ stack = <<>> /\ enabled = TRUE /\ msg = "m0" /\ last = NoLast /\ hist = <<>> /\ handles = {}
+CInit == IsCase(cs) /\ stack = <<>> /\ enabled = TRUE /\ msg = "m0" /\ last = NoLast /\ hist = <<>> /\ handles = {}
 
 Init == IF Mode = "cases" THEN CInit ELSE BInit
 Next == IF Mode = "cases" THEN FALSE /\ UNCHANGED vars ELSE BNext
@@ -156,6 +177,8 @@ Spec == Init /\ [][Next]_vars
 EnabledIffOutside == enabled = (Depth(stack) = 0)
 (* C09: a refused assignment leaves the message unchanged *)
 AtomicStep == [][(last' # last /\ last'.refused) => msg' = msg]_vars
+(* C09: outside every block a value outside the domain is refused, through whatever object the assignment goes *)
+RefusedOutside == [][(last' # last /\ Depth(stack) = 0 /\ last'.cls = "bad") => last'.refused]_vars
 (* outside every block a value outside the domain never reaches the message *)
 NoJunkOutside == (Depth(stack) = 0 /\ last.cls = "bad" /\ last.refused) => msg = last.pre
 
